@@ -9,6 +9,8 @@ as normalised free 4-vectors, so the only algebraic relation used is sqrt(s)^2 =
 Not decided: floating-point rounding.
 Added after the seeding rounds (DESIGN.md 6.6-6.8):
  IDENT.storage  the matrix of an object stored scalar-last equals that of the same quaternion stored scalar-first (both classes).
+Added after refactoring round 3 (DESIGN.md 6.9):
+ IDENT.rotate(3xN)  rotate(A) == E(q) A for 3-by-2, 3-by-3 and 3-by-4 arrays of column vectors (N == 3 is the corner where a row/column mix-up keeps the shape).
 """
 import ast
 import numpy as np
@@ -128,6 +130,13 @@ def check_rotation(chk, prog):
     chk.touch(f)
     chk.ob("IDENT.rotate", QUAT + "::Quaternion.rotate", "rotate(v) == E(q) v",
            lambda: eq(it.run(f, [v], self_obj=quat_obj(it, q)), E @ v, "rotate"), module=QUAT, function="Quaternion.rotate", construct="rotate == E v")
+
+    # the documented array form: 3-by-N, one vector per column (N == 3 is the corner where a row/column mix-up cannot be seen from the shape)
+    for ncols in (2, 3, 4):
+        A = sym_mat("A", 3, ncols)
+        chk.ob("IDENT.rotate", QUAT + "::Quaternion.rotate::3x%d" % ncols, "rotate(A) == E(q) A for a 3-by-%d array of column vectors" % ncols,
+               lambda A=A: eq(it.run(f, [A.copy()], self_obj=quat_obj(it, q)), E @ A, "rotate(3xN)"), module=QUAT, function="Quaternion.rotate",
+               construct="rotate == E A (3x%d)" % ncols)
 
     def sandwich():
         v4 = np.concatenate([[P.ZERO], v])
